@@ -47,7 +47,10 @@ def base_run(pid, tier, seed, rule, props_v=None, theorems=None):
     broken = None
     if props_v and os.path.exists(os.path.join(COQ, props_v)):
         try:
-            proof_step(run, props_v, theorems)
+            # translator T6: the tokenizer's lexical tables (kind numbers, keywords, token tree, skipped bytes) regenerated from the source; front/TokTie.v
+            # proves that the hand-written tokenizer model's tables are those (C10_tables); built with every front-end property, whose model runs on them
+            run_translator("t6", [os.path.join(REPO, "token.go"), os.path.join(REPO, "tokenize.go")], "gen/TokTable.v", "T6(token.go, tokenize.go)")
+            proof_step(run, props_v, theorems, extra_targets=["front/TokTie.v"])
         except BrokenTie as e:
             broken = e
     else:
@@ -78,7 +81,7 @@ def check_c10(tier, seed, replay=None):
         "(delete / insert / replace / truncate); each also with the reader failing (non-EOF error) at sampled offsets, short files at EVERY offset. Required of ReadFile: returns "
         "(no panic, no hang); a reader failure before the end gives an error; if it reports success on x then x + one more valid struct gives an error or a File containing that struct. "
         "The extracted model's result (full File dump) is compared on every input; distinct = distinct (input, failure offset)",
-        "props/C10.v", ["C10_partial", "C10_no_panic"])
+        "props/C10.v", ["C10_partial", "C10_no_panic", "C10_tables"])
     rng = SplitMix64(seed).fork("C10")
     inputs = []     # (bytes, k, source)
     files = testdata_files()
